@@ -40,6 +40,12 @@ func init() {
 			for i := 0; i < n; i++ {
 				K = append(K, pool[r.Intn(len(pool))])
 			}
+			// an argument left pending at the end of K would go to a different command in the two scripts (to K's
+			// first key when K is typed again, to end-kbd-macro when it is recorded): the last key takes its argument
+			switch K[len(K)-1] {
+			case "\x1b2", "\x1b3", "\x1b-":
+				K = append(K, "\x06")
+			}
 			if r.Intn(3) == 0 {
 				// the usual UTF-8 settings: non-ASCII keys of K are then real keys of the script
 				base.Inputrc = "set convert-meta off\nset input-meta on\nset output-meta on\n"
